@@ -84,6 +84,8 @@ def reader_texts():
         {"XOR": lambda v: not (v["OR"] and v["and"]), "input": lambda v: not v["Dff"]}
     yield "nets-named-like-keywords-next-to-their-lower-case-twins", "INPUT(OR)\nINPUT(or)\nOUTPUT(o)\no = AND(OR, or)\n", ["OR", "or"], ["o"], {"o": lambda v: v["OR"] and v["or"]}
     yield "the-same-net-twice-on-an-idempotent-gate", "INPUT(a)\nINPUT(b)\nOUTPUT(o)\nOUTPUT(p)\no = AND(a, a, b)\np = NOR(b, b)\n", ["a", "b"], ["o", "p"], {"o": lambda v: v["a"] and v["b"], "p": lambda v: not v["b"]}
+    yield "carriage-returns-and-form-feeds-inside-wrapped-operand-lists", "INPUT(a)\r\nINPUT(b)\r\nINPUT(c)\r\nOUTPUT(x)\r\nOUTPUT(y)\r\nx = AND(a,\r\n      b)\r\ny = OR(x,\f c,\v a)\r\n", ["a", "b", "c"], ["x", "y"], \
+        {"x": lambda v: v["a"] and v["b"], "y": lambda v: (v["a"] and v["b"]) or v["c"] or v["a"]}
     yield "output-is-input", "INPUT(a)\nINPUT(b)\nOUTPUT(a)\nOUTPUT(g)\ng = AND(a, b)\n", ["a", "b"], ["a", "g"], {"g": lambda v: v["a"] and v["b"], "a": lambda v: v["a"]}
 
 
@@ -101,6 +103,9 @@ def writer_circuits():
     yield "constants-are-outputs", build({"a": ("input", []), "z": ("0", []), "w": ("1", []), "g": ("not", ["a"])}, outputs=["z", "w", "g"])
     yield "nets-named-like-the-constant-helpers", build({"a": ("input", []), "b": ("input", []), "z": ("0", []), "w": ("1", []), "a_inv": ("and", ["a", "b"]), "b_inv": ("or", ["a", "b"]), "z_not_a": ("xor", ["a", "b"]),
                                                          "z_not_b": ("nand", ["a", "b"]), "g": ("xor", ["a_inv", "b_inv", "z", "w", "z_not_a", "z_not_b"])}, outputs=["g", "a_inv"])
+    # names that are not plain identifiers (escaped identifiers a Verilog read leaves behind, bus bits, hyphens): whatever the writer emits
+    # the reader has to take back
+    yield "names-that-are-not-plain-identifiers", build({"a-1": ("input", []), "b[0]": ("input", []), "\\n[0]": ("or", ["a-1", "b[0]"]), "u.v": ("nand", ["\\n[0]", "b[0]"]), "o$": ("xor", ["u.v", "a-1"])}, outputs=["o$", "u.v"])
     yield "both-constants-one-input", build({"i": ("input", []), "z": ("0", []), "w": ("1", []), "g": ("xnor", ["i", "z", "w"])}, outputs=["g"])
 
 
